@@ -30,6 +30,7 @@ type workerReport struct {
 	Stats        *Stats         `json:"stats"`
 	Violations   []violationRec `json:"violations"`
 	Inconclusive []string       `json:"inconclusive"`
+	Capped       bool           `json:"capped"`
 	WallS        float64        `json:"wall_s"`
 }
 
